@@ -119,6 +119,31 @@ func useMix() int { return Mix(3, 4) }`, `func Mix[T ~int | ~int64](a, b T) T {
 }
 
 func useMix() int { return Mix(3, 4) }`})
+	pairs = append(pairs,
+		// the comparison is made in one block and branched on in a later one (after a loop)
+		struct{ ID, A, B string }{"opposite-test-kept-in-a-bool", `func Tally(s []int, a, b int) int {
+	p := a >= b
+	t := 0
+	for _, v := range s {
+		t += v
+	}
+	if p {
+		return t + a
+	} else {
+		return t - b
+	}
+}`, `func Tally(s []int, a, b int) int {
+	p := a < b
+	t := 0
+	for _, v := range s {
+		t += v
+	}
+	if p {
+		return t - b
+	} else {
+		return t + a
+	}
+}`})
 	for pi, pr := range pairs {
 		for _, pol := range pols {
 			n++
